@@ -154,7 +154,7 @@ def exMsg : Ty := .obj "f".toList "tns".toList none
 def exArgs : List (Text × Val) :=
   [("o".toList, .obj "Inner".toList [("a".toList, .int (-128)), ("s".toList, .list [.str "hé".toList, .str []])]),
    ("l".toList, .list [.date ⟨2024, 2, 29⟩, .none])]
-def exCfg : Cfg := ⟨.json, .soft, false, .dict, false⟩
+def exCfg : Cfg := ⟨.json, .soft, false, .dict, false, false, true⟩
 
 example : wfTy exMsg = true := by decide
 example : conformsFields [("o".toList, exInner), ("l".toList, .arr "m".toList (.prim .date {}) {})] exArgs = true := by
